@@ -237,9 +237,6 @@ func runC16(c *Ctx) {
 				kind := "exec"
 				if r.Chance(30) {
 					kind = "prep"
-					if mode == "at-inside" {
-						classes = append(classes, "prepared_dml_in_global_tx")
-					}
 				}
 				steps = append(steps, c16Step{kind: kind, st: st})
 			case x < 11:
@@ -420,8 +417,8 @@ func runC16(c *Ctx) {
 		for k := range steps {
 			if k < len(prox.outs) && k < len(bare.outs) && prox.outs[k] != bare.outs[k] {
 				cl := "different_result"
-				if steps[k].kind == "prep" && mode == "at-inside" {
-					cl = "prepared_dml_in_global_tx"
+				if steps[k].kind == "prep" {
+					cl = "prepared_statement_different_result"
 				}
 				fail(cl, fmt.Sprintf("step %d (%s): proxy %s, bare driver %s", k, steps[k].kind, prox.outs[k], bare.outs[k]))
 			}
